@@ -607,7 +607,7 @@ impl Monitor for C07 {
                     ctx.nontrivial(a.structural_hash());
                 }
                 let route = *rng.pick(&ROUTES);
-                let style = *rng.pick(&[AttrStyle::Map, AttrStyle::Node, AttrStyle::Any]);
+                let style = *rng.pick(&crate::build::STYLES);
                 let via_parse = rng.chance(1, 4);
                 if via_parse {
                     ctx.count("trees_via_parse");
